@@ -186,15 +186,24 @@ func runC11(c *Ctx) {
 	if pvValidate == nil {
 		c.Unresolved("C11.G1", "patchvalidator.Validate")
 	} else {
-		tbl := c.caseTable(pvValidate, nil, func(p string) bool { return strings.Contains(p, "GetAction") })
-		blk := tbl[`"ietf-json-patch"`]
+		dv := c.dispatch(pvValidate, func(p string) bool { return strings.Contains(p, "GetAction") })
 		ok := false
-		if blk != nil {
-			for _, cl := range callsIn(blk) {
-				g := cl.Call.StaticCallee()
+		if a := dv.arms[`"ietf-json-patch"`]; a != nil {
+			for _, ac := range c.armCalls(dv, a) {
+				g := ac.callee
 				if g != nil && inModule(g) && g.Name() == "Validate" {
 					if okE, _ := c.Ensures(g, nil, callTo("pointer validator", V)); okE {
 						ok = true
+						if dv.table {
+							// the table's function must hand the validator's verdict back, and Validate the table function's
+							foundOnly, callReq := c.tableGuards(dv)
+							ok = foundOnly && callReq
+							if ac.call != nil && a.fn != nil {
+								if okW, _ := c.Ensures(a.fn, nil, &GCheck{Name: "validator verdict", NoDescend: true, MatchCall: func(c *Ctx, call *ssa.Call, env Env) bool { return call == ac.call }}); !okW {
+									ok = false
+								}
+							}
+						}
 					}
 				}
 			}
